@@ -17,7 +17,7 @@ type txnAnchors struct {
 	p                                                        *Prog
 	commit, get, modify, discard, begin, view, update        *ssa.Function
 	readTsFn, newCommitTs, doneRead, doneCommit, hasConflict *ssa.Function
-	cleanUp, discardStale                                    *ssa.Function
+	cleanUp, discardStale, commitEntry                       *ssa.Function
 	hash, keyWithTs, parseTs, parseKey                       *ssa.Function
 	fNextTs, fCommitted, fReadMark, fCommitMark, fWriteLock  *types.Var
 	fReadTs, fReadsFp, fWritesFp, fPending, fDiscarded       *types.Var
@@ -72,6 +72,17 @@ func (c *Ctx) Txn() *txnAnchors {
 	fd(&a.fPending, "", "Txn", "pendingWrites")
 	fd(&a.fDiscarded, "", "Txn", "discarded")
 	fd(&a.fReadOnly, "", "Txn", "readOnly")
+	// Commit may be split into the entry point (pre-checks, deferred Discard) and a helper that runs the locked section:
+	// the commit rules look at the function that asks the oracle for the timestamp
+	a.commitEntry = a.commit
+	if a.commit != nil && a.newCommitTs != nil {
+		if h := p.directHolder(a.commit, func(ins ssa.Instruction) bool {
+			cl, ok := ins.(*ssa.Call)
+			return ok && cl.Call.StaticCallee() == a.newCommitTs
+		}); h != nil {
+			a.commit = h
+		}
+	}
 	// the rules read the oracle's answer as (timestamp, conflict): another shape of the answer (a struct, an error) is
 	// not understood and makes them undecided rather than wrong
 	if a.newCommitTs != nil && !resultIs(a.newCommitTs, types.Uint64, types.Bool) {
@@ -83,6 +94,31 @@ func (c *Ctx) Txn() *txnAnchors {
 	fd(&a.fMemtable, "", "DB", "memtable")
 	c.memo["txn"] = a
 	return a
+}
+
+// keepsRecord: the instruction keeps a record of the committed-transaction list during the clean-up - an append to the
+// list being rebuilt, or (compaction in place) a store of a record into a slot of the list itself: txns[kept] = txns[i].
+func (a *txnAnchors) keepsRecord(ins ssa.Instruction) bool {
+	switch x := ins.(type) {
+	case *ssa.Call:
+		bi, ok := x.Call.Value.(*ssa.Builtin)
+		return ok && bi.Name() == "append"
+	case *ssa.Store:
+		ia, ok := x.Addr.(*ssa.IndexAddr)
+		if !ok {
+			return false
+		}
+		sl, ok := ia.X.Type().Underlying().(*types.Slice)
+		if !ok {
+			return false
+		}
+		n := a.p.isModuleNamed(sl.Elem())
+		if n == nil || n.Obj().Name() != "committedTxn" {
+			return false
+		}
+		return a.p.dependsOn(ia.X, func(v ssa.Value) bool { return isLoadOfField(v, a.fCommitted) })
+	}
+	return false
 }
 
 // doneCommitSites: the call sites of f that finish a timestamp on commitMark - through the doneCommit helper or
@@ -232,6 +268,28 @@ func (p *Prog) hasFactIP(ins ssa.Instruction, pred func(Cmp) bool, depth int) bo
 		}
 	}
 	return false
+}
+
+// hasFactUp: the fact holds at ins, or ins sits in an unexported helper that is only called directly and the fact holds
+// at every one of its call sites (a check made by the entry point before it hands over to the helper).
+func (p *Prog) hasFactUp(ins ssa.Instruction, pred func(Cmp) bool, depth int) bool {
+	if hasFact(ins, pred) {
+		return true
+	}
+	f := ins.Parent()
+	if depth > 2 || f == nil || p.isExported(f) {
+		return false
+	}
+	sites := p.CallersOf(f)
+	if len(sites) == 0 {
+		return false
+	}
+	for _, s := range sites {
+		if s.Common().IsInvoke() || s.Common().StaticCallee() != f || !p.hasFactUp(s, pred, depth+1) {
+			return false
+		}
+	}
+	return true
 }
 
 // boolFact: the value v (or its negation) is known at ins
@@ -615,6 +673,7 @@ func runSnapGC(c *Ctx, r *RuleRun) {
 		r.Undecided("-", "anchors", "", "anchors not found: levelManager.discardStaleEntries")
 		return
 	}
+	f = gcWorker(p, f)
 	fn := p.FnName(f)
 	readDone := func(v ssa.Value) bool {
 		call, ok := v.(*ssa.Call)
@@ -1203,7 +1262,7 @@ func runConfRefused(c *Ctx, r *RuleRun) {
 	})
 	r.Check(found, fn, "returns ErrConflictTxn", p.Pos(cf.Pos()), "the conflict error is returned", "Commit never returns ErrConflictTxn")
 	// empty write set: the allocation is dominated by len(pendingWrites) != 0
-	g := hasFact(allocs[0], func(cm Cmp) bool {
+	g := p.hasFactUp(allocs[0], func(cm Cmp) bool {
 		if cm.Y == nil {
 			return false
 		}
@@ -1217,7 +1276,7 @@ func runConfRefused(c *Ctx, r *RuleRun) {
 		}
 		bi, ok := lc.Call.Value.(*ssa.Builtin)
 		return ok && bi.Name() == "len" && isLoadOfField(lc.Call.Args[0], a.fPending) && (cm.Op == "!=" || cm.Op == ">")
-	})
+	}, 0)
 	r.Check(g, fn, "empty write set commits without validation", p.Pos(instrPos(allocs[0])), "newCommitTs is only reached with a non-empty write set",
 		"a transaction that wrote nothing goes through conflict validation: read-only use of an update transaction can be refused")
 }
@@ -1340,14 +1399,10 @@ func runConfWindow(c *Ctx, r *RuleRun) {
 	}
 	m := 0
 	eachInstr(cu, func(ins ssa.Instruction) {
-		call, ok := ins.(*ssa.Call)
-		if !ok {
+		if !a.keepsRecord(ins) || !inLoop(ins.Block()) {
 			return
 		}
-		bi, ok := call.Call.Value.(*ssa.Builtin)
-		if !ok || bi.Name() != "append" || !inLoop(call.Block()) {
-			return
-		}
+		call := ins
 		m++
 		isCtTs := func(v ssa.Value) bool {
 			return p.dependsOn(v, func(x ssa.Value) bool {
@@ -1443,11 +1498,11 @@ func runTraceConfine(c *Ctx, r *RuleRun) {
 		return fe != nil && fe.Kind == "write" && fe.Class == "wal"
 	}
 	for _, root := range la.RoleRoots["U"] {
-		if root == a.commit {
+		if root == a.commit || root == a.commitEntry {
 			continue
 		}
 		// reach without entering Commit
-		seen := map[*ssa.Function]bool{a.commit: true}
+		seen := map[*ssa.Function]bool{a.commit: true, a.commitEntry: true}
 		bad := false
 		var visit func(g *ssa.Function)
 		visit = func(g *ssa.Function) {
@@ -1490,7 +1545,7 @@ func runTraceUpdate(c *Ctx, r *RuleRun) {
 			}
 		}
 	})
-	commits := callsTo(p, f, a.commit)
+	commits := callsTo(p, f, a.commitEntry)
 	if closureCall == nil || len(commits) == 0 {
 		r.Undecided(fn, "closure/commit", p.Pos(f.Pos()), "closure call or Commit call not found in Update")
 		return
@@ -1523,7 +1578,20 @@ func runTraceMisuse(c *Ctx, r *RuleRun) {
 		return func(cm Cmp) bool { return cm.Y == nil && cm.Op == "true" && isLoadOfField(cm.X, fv) }
 	}
 	emptyKey := func(cm Cmp) bool {
-		if cm.Y == nil || cm.Op != "==" {
+		if cm.Y == nil {
+			return false
+		}
+		// len(e.Key) == 0 (also <= 0, < 1) says the same as e.Key == ""
+		if lc, isCall := stripValue(cm.X).(*ssa.Call); isCall {
+			if bi, isBi := lc.Call.Value.(*ssa.Builtin); isBi && bi.Name() == "len" {
+				if fv, _ := loadedField(lc.Call.Args[0]); fv == keyField {
+					if k, isK := constInt(cm.Y); isK && ((cm.Op == "==" && k == 0) || (cm.Op == "<=" && k == 0) || (cm.Op == "<" && k == 1)) {
+						return true
+					}
+				}
+			}
+		}
+		if cm.Op != "==" {
 			return false
 		}
 		s, ok := constString(cm.Y)
@@ -1539,11 +1607,30 @@ func runTraceMisuse(c *Ctx, r *RuleRun) {
 	}
 	// the checks may live in a helper whose error modify passes on
 	cands := []*ssa.Function{f}
-	for _, g := range p.DirectCallees(f) {
-		if p.InModule(g) && g.Pkg == f.Pkg && errResultIndex(g.Signature) >= 0 && p.recvIs(g, "Txn") {
-			cands = append(cands, g)
+	eachInstr(f, func(ins ssa.Instruction) {
+		call, ok := ins.(*ssa.Call)
+		if !ok {
+			return
 		}
-	}
+		g := call.Call.StaticCallee()
+		if g == nil || !p.InModule(g) || g.Pkg != f.Pkg || errResultIndex(g.Signature) < 0 || len(g.Blocks) == 0 {
+			return
+		}
+		if !p.recvIs(g, "Txn") {
+			// a plain validator: its error is what modify returns
+			passedOn := false
+			eachInstr(f, func(i2 ssa.Instruction) {
+				if ret, isRet := i2.(*ssa.Return); isRet && len(ret.Results) > 0 &&
+					derivesFrom(retOperand(ret, 0), func(x ssa.Value) bool { return x == ssa.Value(call) }) {
+					passedOn = true
+				}
+			})
+			if !passedOn {
+				return
+			}
+		}
+		cands = append(cands, g)
+	})
 	// effects of modify: the map updates
 	var ups []ssa.Instruction
 	eachInstr(f, func(ins ssa.Instruction) {
@@ -1654,7 +1741,7 @@ func runTraceMisuse(c *Ctx, r *RuleRun) {
 	allocs := callsTo(p, cf, a.newCommitTs)
 	okc := len(allocs) > 0
 	for _, al := range allocs {
-		if !hasFact(al, neg(isFlag(a.fDiscarded))) {
+		if !p.hasFactUp(al, neg(isFlag(a.fDiscarded)), 0) {
 			okc = false
 		}
 	}
@@ -1697,6 +1784,7 @@ func runTraceMisuse(c *Ctx, r *RuleRun) {
 		}
 		// start after the discarded pre-check: from the first instruction on the not-discarded edge
 		var starts []ssa.Instruction
+		cf := a.commitEntry
 		for _, b := range cf.Blocks {
 			if len(b.Instrs) == 0 {
 				continue
